@@ -100,8 +100,12 @@ func runC04(r *simrt.Run, tier Tier) Outcome {
 			inner := V(freshVar())
 			lhs := C(IntV(3))
 			if len(ints) > 0 {
-				lhs = V(ints[r.Choose(len(ints), "c04.fncmp.lhs")])
-				if r.Bool("c04.fncmp.boundinner") {
+				// a constant on the other side leaves the nested variable as the
+				// only thing that can be unbound at that position
+				if !r.Bool("c04.fncmp.constlhs") {
+					lhs = V(ints[r.Choose(len(ints), "c04.fncmp.lhs")])
+				}
+				if !r.OneIn(4, "c04.fncmp.freshinner") {
 					inner = V(ints[r.Choose(len(ints), "c04.fncmp.inner")])
 				}
 			}
